@@ -117,8 +117,8 @@ def ref_framedata(rec, callee, mem, gcps):
             st.append(t)
         elif INT_RE.match(t):
             n = int(t)
-            if not (-(1 << 31) <= n < (1 << 31)):
-                raise Undoc()       # docs: "limited to i64 precision"; the 32-bit evaluator rejects it
+            if not (-(1 << 63) <= n < (1 << 63)):
+                return None         # "limited to i64 precision": not a constant, and not a variable either
             st.append(n % M32)
         else:
             raise Undoc()           # docs call a bare name a variable; the evaluator rejects it
@@ -268,7 +268,7 @@ class C07(PropBase):
         "note": "Trusted: Coq kernel; hand-written model (correspondence-checked); extraction + glue; nom field parsing only exercised. Known finding F-C07a "
                 "(implicit forwarding of ebp/ebx/esi/edi through STACK WIN frames) is pinned by minidump-stackwalk snapshots and reported as KNOWN-FINDING. No axioms.",
     }
-    assumptions = ["literals outside i32 and bare (non-$, non-.) names are rejected by the evaluator although the docs read as if they were accepted; treated as undocumented by the oracle",
+    assumptions = ["bare (non-$, non-.) names are rejected by the evaluator although the STACK WIN docs list `<alphanumeric>` among the values (documentation matter, see design/C07.md); treated as undocumented by the oracle",
                    "the mock walker's log of clear_caller_register calls is compared model-vs-code only (not judged by the oracle)"]
 
     def canon_model(self, case, ans):
@@ -368,7 +368,8 @@ class C07(PropBase):
         stmts = ["$T0 $ebp =", "$eip $T0 4 + ^ =", "$ebp $T0 ^ =", "$esp $T0 8 + =", "$T0 .raSearchStart =", "$eip $T0 ^ =",
                  "$esp $T0 4 + =", "$ebx $T2 4 - ^ =", "$T2 $esp .cbSavedRegs + =", "$esi .undef =", "$edi 7 =", "$ebp .undef =",
                  "$T0 $esp 16 @ =", "$eip .undef =", "$T1 $T0 $T0 * =", "$eax 5 =", "$esp $esp 4294967295 + =", "$edi -2147483648 =",
-                 "$T0 2147483648 =", "T0 5 =", "$esi .raSearch =", "$edi .raSearchStart =", "$esi .raSearchStart .raSearch - =", "$T0 =4", "$eip =$T0", "= =", "$T3 1 0 / =", "$T3 7 0 % =", "$T3 7 3 @ =", "$esi $nosuch ="]
+                 "$T0 2147483648 =", "$esi 4294967295 =", "$edi 4294967296 1 + =", "$esi -2147483649 =", "$edi 9223372036854775807 =",
+                 "$esi 9223372036854775808 =", "$edi -9223372036854775808 =", "T0 5 =", "$esi .raSearch =", "$edi .raSearchStart =", "$esi .raSearchStart .raSearch - =", "$T0 =4", "$eip =$T0", "= =", "$T3 1 0 / =", "$T3 7 0 % =", "$T3 7 3 @ =", "$esi $nosuch ="]
         nrand = 5000 if tier == "quick" else 50000
         for _ in range(nrand):
             n = rng.range(1, 7)
